@@ -1,6 +1,6 @@
 (* C13 runner: decodes a case, runs the model, encodes the result. Executable only. *)
 From Coq Require Import List ZArith QArith Qabs Qround Bool.
-From Gst Require Import lib.Sx lib.QAux C13.Model.
+From Gst Require Import lib.Sx lib.QAux lib.LinAlgQ C01.Model C13.Model.
 Import ListNotations.
 Local Open Scope Z_scope.
 
@@ -40,6 +40,9 @@ Fixpoint int_uniforms (n : nat) (imin imax : Z) (st : rng G0) : list Z * rng G0 
 Definition qltb' (a b : Q) : bool := qltb a b.
 Definition gbbQ := gbb Q Qplus Qminus qmulr qdivr Qopp qltb qleb (fun q => q) Qfloor qexp qlog qexp qlog qsqrt.
 Definition gibbsQ := gibbs_value Q Qplus Qminus qmulr qdivr Qopp qltb qleb (fun q => q) Qfloor qexp qlog qexp qlog qsqrt.
+(* free samples: law_gaussian is not evaluated by the model (value 0): only the number of draws is compared *)
+Definition siteQ := gibbs_site Q Qplus Qminus qmulr qdivr Qopp qltb qleb (fun q => q) Qfloor qexp qlog qexp qlog qsqrt (fun _ _ => 0%Q).
+Definition ofKind (k : bkind) : sx := I (match k with KFree => 0 | KLower => 1 | KUpper => 2 | KTwo => 3 | KHard => 4 end).
 Definition min_abs (l : list Q) : Q :=
   match l with
   | [] => 1%Q
@@ -89,6 +92,23 @@ Definition asEvent (s : sx) : option event :=
   end.
 
 Definition asRow (s : sx) : option row := asListOf asOQ s.
+(* kind 13: layout of the centred data vector of the C01 kriging model (zext) against the order in which
+   _simulateCalcul visits the defined simulated errors (variable by variable, sample by sample) *)
+Definition layout_case (nvar : nat) (drift : bool) (zs : list (list (option Q))) : kcase :=
+  {| k_nvar := nvar; k_monos := if drift then [[]] else []; k_nfex := 0;
+     k_samples := map (fun z => {| s_coord := [Some 0%Q]; s_z := z; s_verr := []; s_fext := [] |}) zs;
+     k_means := repeat 0%Q nvar; k_tcoord := [0%Q]; k_tfext := []; k_flag_verr := false;
+     k_clhs := []; k_crhs := []; k_c00 := [] |}.
+Fixpoint defined_values (l : list (option Q)) : list Q :=
+  match l with [] => [] | Some q :: r => q :: defined_values r | None :: r => defined_values r end.
+Fixpoint all_zero (l : list Q) : bool := match l with [] => true | q :: r => qeqb q 0 && all_zero r end.
+Fixpoint eq_lists (a b : list Q) : bool :=
+  match a, b with [] , [] => true | x :: r, y :: r' => qeqb x y && eq_lists r r' | _, _ => false end.
+Definition layout_ok (nvar : nat) (drift : bool) (zs : list (list (option Q))) : bool * nat * nat :=
+  let k := layout_case nvar drift zs in
+  let zx := zext k in
+  let ds := flat_map (fun jv => defined_values (map (fun z => nth jv z None) zs)) (seq 0 nvar) in
+  (eq_lists (firstn (length ds) zx) ds && all_zero (skipn (length ds) zx) && Nat.eqb (length zx) (nred k), nred k, length ds).
 (* datum: (active (x y) (z1 ..)) ; target: (active (x y) row) *)
 Definition asDatum (s : sx) : option datum :=
   match s with
@@ -136,6 +156,14 @@ Definition run (c : sx) : sx :=
           of_gbb (gibbsQ yk' sk' a b (stream G0 gstep0 (Z.to_nat fuel) st))
       | _, _, _, _ => sx_error 1
       end
+  | L [I 12; I seed; yk; sk; vmin; vmax; I fuel] =>
+      match asQ yk, asQ sk, asOQ vmin, asOQ vmax with
+      | Some yk', Some sk', Some a, Some b =>
+          let st := set_seed G0 gseed0 seed st0 in
+          L [of_gbb (siteQ yk' sk' a b (stream G0 gstep0 (Z.to_nat fuel) st));
+             ofKind (bounds_kind Q Qminus Qopp qltb qleb (fun q => q) a b)]
+      | _, _, _, _ => sx_error 1
+      end
   | L [I 3; I nbsimu; I nvar; I icase; nb; w; t] =>
       match asListOf asRow nb, asListOf (asListOf asQ) w, asRow t with
       | Some nb', Some w', Some t' =>
@@ -158,6 +186,11 @@ Definition run (c : sx) : sx :=
              ofList (fun tg => let '(a, xy, r) := tg in
                                match find_close e xy d 0 with Some k => I (Z.of_nat k) | None => I (-1) end) t]
       | _, _, _ => sx_error 1
+      end
+  | L [I 13; I nvar; drift; zs] =>
+      match asB drift, asListOf (asListOf asOQ) zs with
+      | Some d, Some z => let '(ok, n, nd) := layout_ok (Z.to_nat nvar) d z in L [ofB ok; ofNat n; ofNat nd]
+      | _, _ => sx_error 1
       end
   | L [I 8; L l] =>
       match l with
